@@ -21,9 +21,11 @@ RULE = (
     "non-negative instant, whole milliseconds). Values: every integer within +-2 of every limit of every type (cross "
     "product, so nesting is exercised) and +-2^k+-1 magnitudes; floats finite/-0.0/subnormal/max/inf/nan; timedeltas "
     "around both limits of both types at us offsets; datetimes naive/aware in several zones around the epoch and the "
-    "upper limit with microsecond in {0,1,999,1000,5000,999000,999999}; non-matching Python types. Oracle: "
+    "upper limit with microsecond in {0,1,999,1000,5000,999000,999999}, and in three daylight-saving zones around their "
+    "transitions (both fold twins of the repeated hour, fold set either way, the skipped hour); non-matching Python types. Oracle: "
     "isinstance(v,T)==expected; T(v) is v if expected else TypeError; range nesting; every member of a fixed-width int, "
-    "f64, duration or timestamp type is accepted by its writer and reads back equal (durations within 0.5 ms). bool for "
+    "f64, duration or timestamp type is accepted by its writer and reads back equal (durations within 0.5 ms; timestamps "
+    "by instant, since aware datetimes of different zones never compare equal when one is fold-ambiguous, PEP 495). bool for "
     "integer types is recorded, not asserted. Non-trivial = value within one unit of a limit, non-finite float or "
     "wrong-typed value; distinct by (type, value)."
 )
@@ -110,6 +112,10 @@ def roundtrip(t: T, kind: str, v, tol=None):
         return
     if tol is not None:
         ok = abs(back - v) <= tol
+    elif isinstance(v, datetime.datetime):
+        # by instant: aware datetimes of different zones compare unequal whenever one of them is fold-ambiguous (PEP 495)
+        utc = datetime.timezone.utc
+        ok = isinstance(back, datetime.datetime) and back.tzinfo is not None and back.astimezone(utc) == v.astimezone(utc)
     elif isinstance(v, float):
         ok = isinstance(back, float) and (back == v) and math.copysign(1, back) == math.copysign(1, v)
     else:
@@ -276,6 +282,29 @@ def section_timestamps(t: T, ctx: Ctx):
             cands.append(base.replace(tzinfo=None))  # naive
             cands.append(base.replace(tzinfo=_NoneOffset()))
     cands += [EPOCH - US, EPOCH - MS, EPOCH + MS, EPOCH + US]
+    # zones with daylight saving time: instants around each transition (both fold twins of the repeated hour, the skipped
+    # hour, the same local day with the other offset), as astimezone() and datetime.now(zone) produce them, and the same
+    # wall-clock fields with fold 0 and fold 1 set explicitly
+    import zoneinfo
+
+    from ..kioapi import DST_TRANSITIONS
+
+    dst_zones = []
+    n_fold = 0
+    for zone, ts in DST_TRANSITIONS.items():
+        try:
+            z = zoneinfo.ZoneInfo(zone)
+        except Exception:
+            continue
+        dst_zones.append(z)
+        for t0 in ts:
+            for d_ms in (0, 1, -1, 900000, -900000, 1800000, -1800000, 3599999, -3599999, 3600000, -3600000, 10800000, -10800000, 1799999):
+                for us in (0, 1, 1000):
+                    v = (EPOCH + datetime.timedelta(milliseconds=t0 + d_ms, microseconds=us)).astimezone(z)
+                    cands.append(v)
+                    cands.append(v.replace(fold=1 - v.fold))
+                    n_fold += v.fold
+    t.dst_candidates = n_fold
     for v in cands:
         exp = _ts_expected(v)
         aware = v.tzinfo is not None and v.tzinfo.utcoffset(v) is not None
@@ -290,7 +319,7 @@ def section_timestamps(t: T, ctx: Ctx):
 
     @hypothesis.seed(ctx.subseed("ts"))
     @settings(max_examples=n, database=None, deadline=None, phases=[Phase.generate], suppress_health_check=list(HealthCheck))
-    @given(st.integers(-(10**12), 253402300799999999), st.sampled_from([1, 1000, 1000, 1000000]), st.sampled_from(zones + [None]))
+    @given(st.integers(-(10**12), 253402300799999999), st.sampled_from([1, 1000, 1000, 1000000]), st.sampled_from(zones + dst_zones + [None]))
     def run(us, grain, zone):
         us -= us % grain
         try:
